@@ -177,6 +177,6 @@ func (w *isolated) runOnce(h *History, b time.Duration) Verdict {
 		w.p.kill()
 		msg := w.p.stderr.String()
 		w.p = nil
-		return Verdict{Crashed: true, Kind: "timeout", Msg: "timeout: no answer within " + b.String() + " (" + boundText + ") " + msg, Wall: time.Since(t0)}
+		return Verdict{Crashed: true, Kind: "timeout", Msg: "timeout: no answer within " + b.String() + " (budget " + boundText + "; a timeout is reported after a second run with four times the budget, at least 60 s) " + msg, Wall: time.Since(t0)}
 	}
 }
